@@ -49,6 +49,8 @@ type pcWorld struct {
 	// class definitions
 	canonDefs map[felt.Felt]core.ClassDefinition // classes declared by any canonical block the run has had under a view
 	regOn     map[felt.Felt]string               // class hash -> identifier of the round on whose stored entry its definition was last seen registered
+
+	pf *pcFeeder // feeder class only (c20feeder.go): the poller's DataSource is the real feeder stack over the simulated gateway
 }
 
 // noteCanon records the classes of canonical blocks (current chain, chains under held views).
@@ -694,20 +696,27 @@ func (p *pcWorld) lookupCheck(v *viewRec) {
 	v.checks++
 	in := map[felt.Felt]bool{}
 	nfound := 0
+	// A hash occurs once in a view unless the gateway served the same transactions twice (feeder class: a
+	// delta that overlaps what the poller holds, one round served for two slots). "Finds exactly the items of
+	// the view's blocks" is then satisfied by any item of the view with that hash (c20feeder.go: dupItems).
+	dups := dupItems(v.entries)
 	for _, e := range v.entries {
 		for i, tx := range e.Block.Transactions {
 			h := tx.Hash()
 			in[*h] = true
 			got, err := v.chain.TransactionByHash(h)
-			if err != nil || got != tx {
+			if err != nil || (got != tx && !dups.hasTx(h, got)) {
 				c.Fail("view_lookup", "transaction_of_view_not_found", "view#%d: TransactionByHash(%s) of block %d index %d: %v", v.id, short(h), e.Block.Number, i, err)
 			}
 			rc, num, err := v.chain.ReceiptByHash(h)
-			if err != nil || rc != e.Block.Receipts[i] || num != e.Block.Number {
+			if err != nil || ((rc != e.Block.Receipts[i] || num != e.Block.Number) && !dups.hasReceipt(h, rc, num)) {
 				c.Fail("view_lookup", "receipt_of_view_not_found", "view#%d: ReceiptByHash(%s) of block %d index %d: number=%d err=%v", v.id, short(h), e.Block.Number, i, num, err)
 			}
 			nfound++
 		}
+	}
+	if len(dups) > 0 {
+		c.Probe("lookup_in_view_with_repeated_transactions")
 	}
 	// hashes that are not in the view: transactions of other rounds and slots, and a committed one
 	nabsent := 0
@@ -905,6 +914,9 @@ func (p *pcWorld) answerPc(r *req, mode string) {
 }
 
 func (p *pcWorld) pcRequestOptions(r *req) []option {
+	if p.pf != nil {
+		return p.pcFeederOptions(r)
+	}
 	if r.cancelled() {
 		return []option{{"ctxerr", 20, func() { p.answerPc(r, "ctxerr") }}, {"ok", 3, func() { p.answerPc(r, "ok") }}}
 	}
@@ -973,6 +985,7 @@ func drawC20Config(c *sim.Ctx) config {
 	// the committed side serves valid blocks only; its faults are C06's subject
 	cfg.corrupt, cfg.staleLat, cfg.flap, cfg.staleVer = false, false, false, false
 	cfg.ticks = false
+	drawC20Feeder(c, &cfg)
 	return cfg
 }
 
@@ -993,6 +1006,9 @@ func c20Sync(c *sim.Ctx) {
 		return out
 	}
 	p.take = func() (preconfirmed.ChainReader, error) { return w.syn.PreConfirmedChain() }
+	if w.fg != nil {
+		p.initFeeder()
+	}
 	p.pcAlign(false)
 	func() {
 		defer w.shutdown()
@@ -1010,6 +1026,9 @@ func c20Sync(c *sim.Ctx) {
 						c.Probe("head_moved_while_poller_call_parked")
 					}
 				}
+			}
+			if p.pf != nil {
+				p.pf.syncClasses()
 			}
 			w.choose("sched", p.c20Options(ps))
 		}
@@ -1037,6 +1056,9 @@ func (p *pcWorld) finish(class string) {
 	c.Sample = map[string]any{
 		"class": class, "gomaxprocs": w.cfg.gomaxprocs, "views_taken": p.nViews, "pre_confirmed_txs_generated": len(p.m.allTx),
 		"rounds": p.m.nIdent, "classes_declared": p.m.nClass, "stores": w.storesN, "reverts": w.revertsN, "steps": w.cfg.steps,
+	}
+	if p.pf != nil {
+		p.pf.finish()
 	}
 	c.Logf("end: class=%s views=%d txs=%d rounds=%d stores=%d reverts=%d at +%s", class, p.nViews, len(p.m.allTx), p.m.nIdent, w.storesN, w.revertsN, w.rel())
 }
